@@ -68,17 +68,48 @@ Theorem C14_sound : forall (sha256 : bytes -> bytes) p n add G inv sqrts (addr_o
 Proof. exact verify_message_sound. Qed.
 Print Assumptions C14_sound.
 
-(* the recovery constructor uses the same recovery as verification for every header 27..34 *)
+(* the recovery constructor: for headers 27, 28, 31, 32 it is the recovery verification uses; for 29, 30, 33, 34
+   (R.x = r + n, repaired D14) it returns a key exactly when r + n is a field element, verification's recovery
+   yields that key and the key verifies the signature *)
 Theorem C14_recover_pubkey : forall (sha256 : bytes -> bytes) p n add G inv sqrts msg h rs dg,
-  msg <> [] -> length rs = 64%nat -> 27 <= h <= 34 -> message_digest sha256 msg = Some dg ->
+  msg <> [] -> length rs = 64%nat -> 27 <= h <= 34 -> (if 31 <=? h then h - 31 else h - 27) < 2 ->
+  message_digest sha256 msg = Some dg ->
   recover_pubkey sha256 p n add G inv sqrts msg (h :: rs)
   = recover p n add G inv sqrts (be_val dg) (be_val (firstn 32 rs)) (be_val (skipn 32 rs)) (if 31 <=? h then h - 31 else h - 27).
 Proof.
-  intros sha p n add G inv sqrts msg h rs dg Hm Hl Hh Hd. unfold recover_pubkey. cbn [length].
+  intros sha p n add G inv sqrts msg h rs dg Hm Hl Hh Hid Hd. unfold recover_pubkey. cbn [length].
   destruct msg as [|m0 mr]; [congruence|]. cbn [length Nat.eqb]. rewrite Hl. cbn [Nat.eqb negb].
-  replace ((27 <=? h) && (h <=? 34))%bool with true by Lia.lia. cbn [negb]. rewrite Hd. cbn.
-  f_equal. destruct (31 <=? h) eqn:E.
-  - replace (h - 27) with (h - 31 + 1 * 4) by Lia.lia. rewrite Z.mod_add by Lia.lia. apply Z.mod_small. Lia.lia.
-  - apply Z.mod_small. Lia.lia.
+  replace ((27 <=? h) && (h <=? 34))%bool with true by Lia.lia. cbn [negb]. rewrite Hd. cbn [Schnorr.obind]. cbv zeta.
+  assert (Hr : (h - 27) mod 4 = (if 31 <=? h then h - 31 else h - 27)).
+  { destruct (31 <=? h) eqn:E.
+    - replace (h - 27) with (h - 31 + 1 * 4) by Lia.lia. rewrite Z.mod_add by Lia.lia. apply Z.mod_small. Lia.lia.
+    - apply Z.mod_small. Lia.lia. }
+  rewrite Hr. destruct ((if 31 <=? h then h - 31 else h - 27) <? 2) eqn:E2; [reflexivity|Lia.lia].
 Qed.
 Print Assumptions C14_recover_pubkey.
+Theorem C14_recover_pubkey_high : forall (sha256 : bytes -> bytes) p n add G inv sqrts msg h rs dg Q,
+  msg <> [] -> length rs = 64%nat -> 27 <= h <= 34 -> 2 <= (if 31 <=? h then h - 31 else h - 27) ->
+  message_digest sha256 msg = Some dg ->
+  (recover_pubkey sha256 p n add G inv sqrts msg (h :: rs) = Some Q <->
+   be_val (firstn 32 rs) + n < p /\
+   recover p n add G inv sqrts (be_val dg) (be_val (firstn 32 rs)) (be_val (skipn 32 rs)) (if 31 <=? h then h - 31 else h - 27) = Some Q /\
+   ecdsa_verify n add G inv Q (be_val dg) (be_val (firstn 32 rs)) (be_val (skipn 32 rs)) = true).
+Proof.
+  intros sha p n add G inv sqrts msg h rs dg Q Hm Hl Hh Hid Hd. unfold recover_pubkey. cbn [length].
+  destruct msg as [|m0 mr]; [congruence|]. cbn [length Nat.eqb]. rewrite Hl. cbn [Nat.eqb negb].
+  replace ((27 <=? h) && (h <=? 34))%bool with true by Lia.lia. cbn [negb]. rewrite Hd. cbn [Schnorr.obind]. cbv zeta.
+  assert (Hr : (h - 27) mod 4 = (if 31 <=? h then h - 31 else h - 27)).
+  { destruct (31 <=? h) eqn:E.
+    - replace (h - 27) with (h - 31 + 1 * 4) by Lia.lia. rewrite Z.mod_add by Lia.lia. apply Z.mod_small. Lia.lia.
+    - apply Z.mod_small. Lia.lia. }
+  rewrite Hr. set (rid := if 31 <=? h then h - 31 else h - 27) in *.
+  destruct (rid <? 2) eqn:E2; [Lia.lia|].
+  destruct (p <=? be_val (firstn 32 rs) + n) eqn:Ep.
+  - split; [discriminate|intros [Hlt _]; Lia.lia].
+  - destruct (recover p n add G inv sqrts (be_val dg) (be_val (firstn 32 rs)) (be_val (skipn 32 rs)) rid) as [Q'|] eqn:ER.
+    + destruct (ecdsa_verify n add G inv Q' (be_val dg) (be_val (firstn 32 rs)) (be_val (skipn 32 rs))) eqn:EV.
+      * split; [intros [= <-]; repeat split; [Lia.lia|assumption]|intros (_ & [= <-] & _); reflexivity].
+      * split; [discriminate|intros (_ & [= <-] & HV); congruence].
+    + split; [discriminate|intros (_ & HF & _); discriminate].
+Qed.
+Print Assumptions C14_recover_pubkey_high.
